@@ -318,6 +318,8 @@ def run(tier):
         serialization_probe(R, mod, w, src)
         pyrun.drop_module(mod)
     apischema.cache.reset()
+    from harness import probes
+    probes.dynamic_over_default_conversion(R)
     T1 = "world * list conv * cty * cdata * cobs"
     bad, errs = core.run_coq_shards("C12", HEADER + "\n".join(worlds) + "\n", items,
                                     "(fun c : " + T1 + " => let '(w, dyn, t, d, o) := c in cres_matches (deserialize_c w 12 dyn t d) o)",
